@@ -444,8 +444,12 @@ def run_C16(case):
                 if k == "we_pages":
                     prefs = set(tk.spec["prefixes_b"])
                     answer = [d["lru"] for d in tk.result]
+                    # duplicates are judged only while the request stays well-formed, i.e. every prefix it
+                    # was given is attached to its webentity in every snapshot of its lifetime (a prefix
+                    # edit may detach a nested own prefix, after which two walks legitimately overlap)
+                    well_formed = all(sn["pref"].get(p_) == tk.spec["weid"] for sn in life for p_ in prefs)
                     res.evals["C16.page_query_no_dup"] += 1
-                    if len(answer) != len(set(answer)):
+                    if well_formed and len(answer) != len(set(answer)):
                         raise Fail("C16.page_query_no_dup", "page query lists a page twice; schedule %s" % short(sch.schedule, 300))
                     universe = set()
                     for s in life:
